@@ -9,6 +9,8 @@ import (
 	_ "verifharness/internal/c05"
 	_ "verifharness/internal/c06"
 	_ "verifharness/internal/c07"
+	_ "verifharness/internal/c09"
+	_ "verifharness/internal/c10"
 	_ "verifharness/internal/c11"
 	_ "verifharness/internal/c13"
 	_ "verifharness/internal/c14"
